@@ -8,6 +8,8 @@ INVARIANT TypeOK
 INVARIANT AllRectangular
 INVARIANT ConcatLaw
 INVARIANT DoLaw
+INVARIANT ConcatNLaw
+INVARIANT ScaleLaws
 PROPERTY OnlyTargetChanges
 PROPERTY RejectedLeavesState
 PROPERTY CallsOwnNothing
